@@ -110,7 +110,7 @@ Section More.
   Proof.
     intros Ez Hne. destruct (face_has_first F lF Ez Hne) as (c0 & Ec0). exists c0. split; [exact Ec0|]. split.
     - unfold p_face_to_corners, p_face_at. rewrite (guard_ok m f T HT). destruct Hm as (_ & Ef & _). rewrite Ef, Ez. cbn [of_opt bind].
-      apply mapM_ok. intros i _. unfold p_adjF2Cn, CR. rewrite HT. cbn [bind].
+      apply mapM_ok. intros i _. unfold p_adjF2Cn, CR, g_ftc_key, g_ftc_elem. rewrite HT. cbn [bind].
       destruct (T4 nv faces m f T Hwf Hm HT) as (T0 & es & S & (_ & _ & _ & E4)). rewrite E4, (ts_f2c _ _ _ _ S), Ec0. reflexivity.
     - intros i Hi. destruct (first_corner_pos0 F c0 Ec0) as (x0 & Hx0 & E1 & E2 & E3).
       assert (En : cn x0 = zlen lF).
@@ -128,6 +128,7 @@ Section More.
   Proof.
     intros Ez. unfold p_face_to_edges, p_face_at. rewrite (guard_ok m f T HT). destruct Hm as (_ & Ef & _). rewrite Ef, Ez.
     cbn [of_opt bind]. apply mapM_ok. intros i Hi. apply In_zrange in Hi.
+    unfold g_face_to_edges_idx. cbn [fst snd].
     destruct (zth_in_range lF i Hi) as (a & Ea).
     destruct (zth_in_range lF ((i + 1) mod zlen lF)) as (b & Eb); [apply Z.mod_pos_bound; lia|].
     rewrite Ea, Eb. cbn [of_opt bind]. rewrite (zth_d_Some _ _ _ Ea), (zth_d_Some _ _ _ Eb). apply edge_id_correct.
@@ -171,21 +172,22 @@ Section More.
     end.
   Lemma other_edge_end_correct E V : p_other_edge_end m f E V = sp_other_edge_end (m_edges m) E V.
   Proof.
-    unfold p_other_edge_end, p_edge_at, sp_other_edge_end. rewrite (guard_ok m f T HT). cbn [bind].
+    unfold p_other_edge_end, p_edge_at, sp_other_edge_end, g_other_edge_end. rewrite (guard_ok m f T HT). cbn [bind].
     destruct (zth (m_edges m) E) as [[A B]|]; reflexivity.
   Qed.
 
   (* position of the first occurrence *)
-  Lemma index_of_spec V l : forall k,
-    match index_of V l k with
+  Lemma index_of_spec F V l : forall k,
+    match in_face_index_loop F V l k with
     | Some i => k <= i /\ zth l (i - k) = Some V /\ (forall j, 0 <= j < i - k -> zth l j <> Some V)
     | None => ~ In V l
     end.
   Proof.
-    induction l as [|x t IH]; intros k; cbn [index_of]; [intros []|].
+    induction l as [|x t IH]; intros k; cbn [in_face_index_loop];
+      unfold g_in_face_index_default, g_in_face_index_test, g_in_face_index_ret; [intros []|].
     destruct (Z.eqb_spec x V) as [->|N].
     - split; [lia|]. replace (k - k) with 0 by lia. split; [reflexivity|]. intros j Hj. lia.
-    - specialize (IH (k + 1)). destruct (index_of V t (k + 1)) as [i|].
+    - specialize (IH (k + 1)). destruct (in_face_index_loop F V t (k + 1)) as [i|].
       + destruct IH as (H1 & H2 & H3). split; [lia|]. split.
         * rewrite zth_cons_S by lia. replace (i - k - 1) with (i - (k + 1)) by lia. exact H2.
         * intros j Hj. destruct (Z.eq_dec j 0) as [->|Nj]; [cbn; congruence|].
@@ -202,8 +204,8 @@ Section More.
       end.
   Proof.
     intros Ez. unfold p_in_face_index, p_face_at. rewrite (guard_ok m f T HT). destruct Hm as (_ & Ef & _). rewrite Ef, Ez.
-    cbn [of_opt bind]. eexists. split; [reflexivity|]. pose proof (index_of_spec V lF 0) as H.
-    destruct (index_of V lF 0) as [i|]; [|exact H]. destruct H as (H1 & H2 & H3).
+    cbn [of_opt bind]. eexists. split; [reflexivity|]. pose proof (index_of_spec F V lF 0) as H.
+    destruct (in_face_index_loop F V lF 0) as [i|]; [|exact H]. destruct H as (H1 & H2 & H3).
     replace (i - 0) with i in * by lia. split; assumption.
   Qed.
 
@@ -221,7 +223,8 @@ Section More.
 
   Lemma opposite_face_inds_correct u v F : p_opposite_face_inds m f u v F = Ok (sp_opposite_face_inds u v F).
   Proof.
-    unfold p_opposite_face_inds. rewrite (guard_ok m f T HT).
+    unfold p_opposite_face_inds, g_opposite_face_inds_calls, g_opposite_face_inds_ret. cbn beta iota zeta delta [fst snd].
+    rewrite (guard_ok m f T HT).
     rewrite !(direct_face_inds_correct nv faces m f T Hwf Hm HT). cbn [bind].
     unfold sp_opposite_face_inds, sp_side, sp_direct_face_inds.
     destruct (sp_he faces u v), (sp_he faces v u); reflexivity.
@@ -260,6 +263,7 @@ Section More.
     assert (G : forall is, (forall i, In i is -> 0 <= i < zlen lF) ->
                 p_common_edge_loop m f lF (zlen lF) iF1 iF2 is = Ok (sp_common_edge_loop lF iF2 is)).
     { induction is as [|i t IH]; intros Hr; [reflexivity|]. cbn [p_common_edge_loop sp_common_edge_loop].
+      unfold g_common_edge_idx, g_common_edge_call, g_common_edge_test, g_common_edge_ret. cbn [fst snd].
       destruct (side_corner_of_face iF1 lF i Ez (Hr i (or_introl eq_refl))) as (x & Hx & Ecf & Eci & Ea & Eb).
       rewrite Ea, Eb. cbn [of_opt bind]. rewrite (zth_d_Some _ _ _ Ea), (zth_d_Some _ _ _ Eb).
       rewrite (opposite_face_correct nv faces m f T Hwf Hm HT). cbn [bind].
